@@ -13,7 +13,7 @@ def family(kind, sym):
         named = {'I': ops.I(), 'n': ops.n(), 'c': ops.c(), 'cp': ops.cp()}
         numbers = [ops.n()]
     else:
-        ops = yo.SpinfulFermions(sym=sym)
+        ops = yo.SpinfulFermions(sym=sym) if kind != 'tJ' else yo.SpinfulFermions_tJ(sym=sym)     # tJ: the same operators on the 3-dimensional space without double occupancy
         named = {'I': ops.I(), 'nu': ops.n('u'), 'nd': ops.n('d'), 'cu': ops.c('u'), 'cd': ops.c('d'), 'cpu': ops.cp('u'), 'cpd': ops.cp('d')}
         named['Sp'] = ops.cp('u') @ ops.c('d')
         named['Sm'] = ops.cp('d') @ ops.c('u')
